@@ -197,5 +197,18 @@ func (sc *placeholderScanner) Scan(lang string, content []byte) []placeholderHit
 			}
 		}
 	}
-	return hits
+	// an entry that is part of a longer entry found in the same file says nothing new
+	var out []placeholderHit
+	for _, h := range hits {
+		sub := false
+		for _, o := range hits {
+			if o.Entry != h.Entry && strings.Contains(o.Entry, h.Entry) {
+				sub = true
+			}
+		}
+		if !sub {
+			out = append(out, h)
+		}
+	}
+	return out
 }
